@@ -37,6 +37,8 @@ var c17DurBounds = [][]time.Duration{
 	{time.Millisecond, time.Second, time.Minute, time.Hour},
 	{1, 3, 1000, 1 << 40},
 	{1128 * time.Millisecond, 1140 * time.Millisecond, 1253 * time.Millisecond, 16777217 * time.Nanosecond * 1000},
+	// a specification that starts below zero and has the bound 0 itself (tally's first buckets are (-inf, -1s], (-1s, 0])
+	{-time.Second, 0, time.Millisecond, time.Second},
 }
 
 type c17Case struct {
